@@ -143,6 +143,8 @@ func VerifC11_Test3k3y() {
 
 var verifC11Paths = []string{
 	"/PS3ISO/g.iso", "/ps3iso/sub/g.ISO", "/Ps3Iso/g.Iso", "/PS3ISO/g.bin", "/GAMES/g.iso", "/PS3ISO/g", "/PS3ISOX/g.iso",
+	// the directory's text also occurs elsewhere in the path (in an earlier element, in the file name)
+	"/oldPS3ISO/PS3ISO/g.iso", "/xps3iso/ps3iso/sub/g.iso", "/PS3ISO/sub/PS3ISO.iso",
 }
 
 const verifKeyAHex = "00112233445566778899aabbccddeeff"
@@ -316,4 +318,43 @@ func VerifC13_KeyFile() {
 		same = same && key[i] == verifKeyA[i]
 	}
 	verifrt.Assert(same, "keyfile.value")
+}
+
+
+// C13 (handle half of opening): whatever fails while a file is opened - the open itself, Stat, a key
+// file that cannot be opened, read or decoded (in either location), the probing reads of the image -
+// an error returns no file and leaves no handle open, and success leaves exactly the returned one,
+// which Close releases.
+func VerifC13_OpenFileHandles() {
+	verifrt.NativeUnsupported("AES is replaced by engine-injected cipher stubs")
+	path := [2]string{"/PS3ISO/g.iso", "/GAMES/g.iso"}[verifrt.Choice("path", 2)]
+	led := &verifstub.Ledger{}
+	size := verifrt.Int64("size")
+	verifrt.Assume(size >= 0x3000)
+	verifrt.Assume(size < 1<<40)
+	verifrt.Assume(size%2048 == 0)
+	img := &verifstub.File{Label: "img", Size: size, Faults: true}
+	verifrt.Assume(verifBE32("img", 0) <= 2)
+	hasA, hasB := verifrt.Bool("adjacentkey"), verifrt.Bool("redkey")
+	keyAText := verifKeyAHex
+	if verifrt.Bool("adjacentkey.malformed") {
+		keyAText = "00112233445566778899aabbccddeezz"
+	}
+	bfs := &verifstub.Fs{L: led, Faults: true, Entries: []*verifstub.Entry{
+		{Path: path, File: img},
+		{Path: "/PS3ISO/g.dkey", File: &verifstub.File{Data: []byte(keyAText), Size: int64(len(keyAText)), Faults: true, ShortBudget: 1}, Gone: !hasA},
+		{Path: "/REDKEY/g.dkey", File: &verifstub.File{Data: []byte(verifKeyBHex), Size: 32, Faults: true}, Gone: !hasB},
+	}}
+	fsys := &FS{Fs: bfs}
+	f, err := fsys.OpenFile(path, os.O_RDONLY, 0)
+	if err != nil {
+		verifrt.Assert(f == nil, "openhandles.error-returns-no-file")
+		verifrt.Assert(led.Opened == led.Closed, "openhandles.error-closes-everything")
+		return
+	}
+	verifrt.Assert(f != nil && led.Opened == led.Closed+1, "openhandles.only-the-result-stays-open")
+	if f != nil {
+		_ = f.Close()
+		verifrt.Assert(led.Opened == led.Closed, "openhandles.close-releases")
+	}
 }
